@@ -30,20 +30,41 @@ def pair_levels(y0, y1, step):
     return tuple(sorted(must)), tuple(sorted(maybe))
 
 
+class Crossing(tuple):
+    """(mean crossing abscissa, ambiguous flag) with an attribute `slack`: how
+    far the mean may move within the accuracy of a root finder working on
+    y / step (64 eps of the level value divided by the slope of the chord,
+    at most the width of the pair) -- only nearly flat chords have any"""
+
+    def __new__(cls, mean, amb, slack):
+        obj = super().__new__(cls, (mean, amb))
+        obj.slack = slack
+        return obj
+
+
 def own_crossings(x, y, step):
-    """level -> (mean crossing abscissa, ambiguous flag) for one series, by
-    closed-form inversion of each chord"""
+    """level -> Crossing(mean crossing abscissa, ambiguous flag) for one
+    series, by closed-form inversion of each chord"""
     acc = {}
+    unc = {}
     amb = set()
     for i in range(len(x) - 1):
         must, maybe = pair_levels(y[i], y[i + 1], step)
+        if not must and not maybe:
+            continue
         for k in maybe:
             amb.add(k)
+        dy = y[i + 1] - y[i]
+        width = abs(x[i + 1] - x[i])
+        yscale = max(1.0, abs(y[i] / step), abs(y[i + 1] / step))
+        slack = min(width, 64 * 2.0 ** -52 * yscale / (abs(dy / step) / width)) if dy != 0 else width
         for k in tuple(must) + tuple(maybe):
             target = k * step
-            xt = x[i] + (target - y[i]) * (x[i + 1] - x[i]) / (y[i + 1] - y[i])
+            xt = x[i] + (target - y[i]) * (x[i + 1] - x[i]) / dy
+            xt = min(max(xt, min(x[i], x[i + 1])), max(x[i], x[i + 1]))
             acc.setdefault(k, []).append(xt)
-    return {k: (math.fsum(v) / len(v), k in amb) for k, v in acc.items()}
+            unc[k] = unc.get(k, 0.0) + slack
+    return {k: Crossing(math.fsum(v) / len(v), k in amb, unc[k] / len(v)) for k, v in acc.items()}
 
 
 class UnionFind:
@@ -316,8 +337,10 @@ def walk_curve(connection, kind, reference_level=None, rng=None, cache=None):
             if amb:
                 n_amb += 1
                 continue
-            scale = max(1.0, abs(ref)) if kind == 'rise' else max(1.0, abs(ref))
-            if abs(c - ref) > abs_tol + 1e-9 * scale:
+            scale = max(1.0, abs(ref))
+            if own[s][k].slack > 1e-6 * scale:
+                hit('crossings-on-nearly-flat-chords (position ill-conditioned)')
+            if abs(c - ref) > abs_tol + 1e-9 * scale + own[s][k].slack:
                 findings.append(('C13', kind + '-crossing-value-differs',
                                  {'interval': s, 'level': k, 'stored': c, 'own_mean_crossing': ref}))
             else:
